@@ -166,7 +166,7 @@ def run_case(c):
     found = []
     phs = json.dumps(tb).count(c["ph"])
     if phs == 0:
-        return {"id": c["id"], "ok": True, "kind": "skipped", "why": "placeholder does not reach the tree in this context"}
+        return {"id": c["id"], "ok": False, "kind": "lost", "why": "even an inert body (the placeholder word) does not reach the tree in this context"}
     # absolute part of the oracle: with an inert body the tag syntax itself never reaches the tree
     leak = re.search(r"</?%s\b[^\"]{0,40}" % re.escape(c["tag"]), json.dumps(tb), re.I)
     if leak:
